@@ -112,7 +112,7 @@ def stepOk (c : Case) (hist : List (Op × Bool)) (prev : Bool) (op : Op) (s : St
      (match c.classes[k]? with
       | some cls => s.run == B3.ofBool prev && runOutcome c.fault (constructPlan cls prev) s
       | none => true)        -- no such class: excluded by `wf`
-   | .assign k i =>
+   | .assign k i _ =>
      (match c.classes[k]? with
       | some cls => (match cls.fields[i]? with
         | some f => s.run == B3.ofBool prev && runOutcome c.fault (assignPlan cls prev f) s
@@ -137,7 +137,7 @@ def spec (c : Case) (o : Obs) : Bool := specGo c [] c.start c.ops o.steps
 /-- a reader names an existing class of the hierarchy (and an existing field of it) -/
 def opOk (c : Case) : Op → Bool
   | .construct k => (c.classes[k]?).isSome
-  | .assign k i => (match c.classes[k]? with
+  | .assign k i _ => (match c.classes[k]? with
     | some cls => (cls.fields[i]?).isSome
     | none => false)
   | .validate k => (c.classes[k]?).isSome
